@@ -245,6 +245,10 @@ pub struct Recv {
     /// options on the only field of a newtype struct (`struct R(#[darling(with = .., map = ..)] T);`)
     pub inner_with: With,
     pub inner_post: Post,
+    /// `skip` written on the only field of a newtype struct: a newtype hands its input to that
+    /// field whatever the option says, so the option changes nothing (and the field's type
+    /// parameter still needs its bound)
+    pub inner_skip: bool,
 }
 
 impl Recv {
@@ -257,7 +261,7 @@ impl Recv {
                 multiple: false,
                 rename: None,
                 default: Def::None,
-                skip: false,
+                skip: self.inner_skip,
                 flatten: false,
                 with: self.inner_with,
                 post: self.inner_post,
@@ -573,6 +577,7 @@ impl<'a> Gen<'a> {
                         generics: String::new(),
                         inner_with: With::None,
                         inner_post: Post::None,
+            inner_skip: false,
                     });
                     let inner = self.meta_recv(depth + 1, false);
                     self.recvs[outer].shape = Shape::Newtype(Ty::Recv(inner));
@@ -636,6 +641,7 @@ impl<'a> Gen<'a> {
             generics: String::new(),
             inner_with: With::None,
             inner_post: Post::None,
+            inner_skip: false,
         });
         if self.rng.chance(2, 3) {
             let inner = match self.rng.below(4) {
@@ -669,6 +675,9 @@ impl<'a> Gen<'a> {
                     }
                 }
             }
+            if matches!(self.recvs[id].shape, Shape::Newtype(_)) && self.rng.chance(1, 8) {
+                self.recvs[id].inner_skip = true;
+            }
         }
         // a declared value-for-absent on a unit / newtype receiver
         if self.profile.options && self.rng.chance(1, 3) {
@@ -700,6 +709,7 @@ impl<'a> Gen<'a> {
             generics: String::new(),
             inner_with: With::None,
             inner_post: Post::None,
+            inner_skip: false,
         });
         let opts = self.profile.options;
         let mut r = self.recvs[id].clone();
@@ -853,6 +863,7 @@ impl<'a> Gen<'a> {
             generics: String::new(),
             inner_with: With::None,
             inner_post: Post::None,
+            inner_skip: false,
         };
         self.recvs.push(r.clone());
         if self.profile.options && self.rng.chance(1, 3) {
@@ -942,6 +953,7 @@ impl<'a> Gen<'a> {
                 generics: if generic { "<T>".to_string() } else { String::new() },
                 inner_with: With::None,
                 inner_post: Post::None,
+                inner_skip: self.rng.chance(1, 4),
             });
             return outer;
         }
@@ -1040,6 +1052,7 @@ impl<'a> Gen<'a> {
             generics: String::new(),
             inner_with: With::None,
             inner_post: Post::None,
+            inner_skip: false,
         };
         self.recvs.push(r.clone());
         // one optional and one required scalar option keep body-layer mistakes expressible
